@@ -120,6 +120,7 @@ type sessCfg struct {
 	Other   bool   `json:"other"` // a session with a second peer (same VRF, same local AS) is established throughout
 	Active  bool   `json:"active"` // the peer is not passive: its own FSM is handed the connections and used for every session
 	V6Only  bool   `json:"v6only"` // only the IPv6 address family is configured
+	name    string // name of the configuration in the spec
 }
 
 type sessOpen struct {
@@ -233,6 +234,10 @@ func newSession(cfg sessCfg) *session {
 	if cfg.V6Only {
 		pc.IPv4 = nil
 	}
+	if cfg.name == "apTx" { // several paths per prefix towards the peer, one path per prefix from it
+		pc.IPv4.AddPathSend = routingtable.ClientOptions{MaxPaths: 2}
+		pc.IPv6.AddPathSend = routingtable.ClientOptions{MaxPaths: 2}
+	}
 	if cfg.RRC == "default" || cfg.RRC == "explicit" {
 		pc.RouteReflectorClient = true
 		if cfg.RRC == "explicit" {
@@ -317,13 +322,18 @@ func (s *session) openBytes(o sessOpen) []byte {
 	if o.AS4 != "none" {
 		caps = append(caps, wire.Cap{Code: 65, Value: wire.U32(as4)})
 	}
-	if o.Role != "none" {
+	if o.Role == "multi" { // three role capabilities, the last two agree
+		caps = append(caps, wire.Cap{Code: 9, Value: []byte{roleCap["customer"]}}, wire.Cap{Code: 9, Value: []byte{roleCap["provider"]}},
+			wire.Cap{Code: 9, Value: []byte{roleCap["provider"]}})
+	} else if o.Role != "none" {
 		caps = append(caps, wire.Cap{Code: 9, Value: []byte{roleCap[o.Role]}})
 	}
 	if s.openClass == "okOddAP" { // add-path for an address family nobody configured, a SAFI the speaker does not run, an odd mode
 		caps = append(caps, wire.Cap{Code: 69, Value: []byte{0, 25, 1, 3, 0, 1, 4, 3, 0, 2, 128, 1, 0, 3, 1, 2}})
 	}
-	if s.cfg.AddPath && !s.noAP {
+	if s.openClass == "okAP3" {
+		caps = append(caps, wire.Cap{Code: 69, Value: []byte{0, 1, 1, 3, 0, 2, 1, 3}}) // send and receive for both families
+	} else if s.cfg.AddPath && !s.noAP {
 		caps = append(caps, wire.Cap{Code: 69, Value: []byte{0, 1, 1, 2, 0, 2, 1, 2}}) // we send several paths for both families
 	}
 	return wire.Header(wire.TypeOpen, wire.OpenBody(o.Version, as, o.Hold, id, caps))
@@ -421,6 +431,8 @@ func (s *session) updateBytes(name string, u sessUpd) []byte {
 		body = wire.UpdateBody(nil, cat(origin, aspath, wire.Attr(0x40, wire.AttrNextHop, []byte{10, 0, 0}, false), lp), nlri)
 	case "medLen5":
 		body = wire.UpdateBody(nil, cat(origin, aspath, nh, lp, wire.Attr(0x80, wire.AttrMED, []byte{0, 0, 0, 0, 5}, false)), nlri)
+	case "medLen5ext":
+		body = wire.UpdateBody(nil, cat(origin, aspath, nh, lp, wire.Attr(0x80, wire.AttrMED, []byte{0, 0, 0, 0, 5}, true)), nlri)
 	case "asPathTrunc":
 		sz := 2
 		if s.asn4 {
@@ -810,6 +822,7 @@ func init() {
 			case "Config":
 				var cfg sessCfg
 				st.Into("cfg", &cfg)
+				cfg.name = st.Str("cfgname")
 				s = newSession(cfg)
 			case "Connect":
 				s.conn = newVconn(net.IPv4(10, 0, 0, 200).To4(), s.peerIP)
@@ -908,6 +921,12 @@ func init() {
 			case "HoldExpires":
 				server.VerifAgeHoldTimer(s.srv, s.vrf, s.peerKey, time.Hour)
 				wait = 10 * time.Second // the periodic check runs once per second and competes with the keepalive timer
+			case "HoldExpiresNoWrite":
+				s.conn.mu.Lock()
+				s.conn.failWrites = true
+				s.conn.mu.Unlock()
+				server.VerifAgeHoldTimer(s.srv, s.vrf, s.peerKey, time.Hour)
+				wait = 10 * time.Second
 			case "WriteFails":
 				s.conn.mu.Lock()
 				s.conn.failWrites = true
